@@ -26,7 +26,7 @@ class Scenario(object):
     """benchmarks: list of names; one suite S, one executor E, experiment T (+ optional second experiment)"""
 
     def __init__(self, wd, benchmarks, invocations, iterations, crits, data_file='t.data',
-                 second_exp=None, profile=False, third_exp=None):
+                 second_exp=None, profile=False, third_exp=None, unicode_text=False):
         self.wd = wd
         self.benchmarks = list(benchmarks)
         self.invocations = invocations
@@ -38,6 +38,8 @@ class Scenario(object):
         self.profile = profile
         self.serial = SERIAL_BASE
         self.session = 0
+        self.unicode_text = unicode_text   # non-ASCII text in fields that are recorded in the JSON metadata
+        self.encoding = 'utf-8'            # 'latin-1': read()/write() work on bytes (one char = one byte)
         self.fail_exes = set()         # executables (exe, exe2, exe3) whose every invocation fails
         self.starts = []               # dicts: session, bench, exe, dps: [[(crit, serial), …, ('total', serial)], …]
         os.makedirs(wd, exist_ok=True)
@@ -48,6 +50,11 @@ class Scenario(object):
                         'benchmarks': list(self.benchmarks)}}
         executors = {'E': {'path': '.', 'executable': 'exe'}}
         exps = {'T': {'suites': ['S'], 'executions': ['E']}}
+        if self.unicode_text:
+            # 2-, 3- and 4-byte UTF-8 characters in fields that only occur in the metadata records
+            suites['S']['description'] = u'Micro-benchmarks de r\u00e9f\u00e9rence \u2013 s\u00e9rie \u03b1 \U0001F600'
+            executors['E']['description'] = u'ex\u00e9cuteur \u2713 gr\u00f6\u00dfe'
+            executors['E']['env'] = {'LABEL': u'na\u00efve \u65e5\u672c'}
         if self.profile:
             executors['E']['profiler'] = {'perf': {}}
             exps['T']['action'] = 'profile'
@@ -124,11 +131,11 @@ class Scenario(object):
     def read(self):
         if not os.path.exists(self.data_path):
             return None
-        with open(self.data_path, 'r', newline='') as f:
+        with open(self.data_path, 'r', newline='', encoding=self.encoding) as f:
             return f.read()
 
     def write(self, text):
-        with open(self.data_path, 'w', newline='') as f:
+        with open(self.data_path, 'w', newline='', encoding=self.encoding) as f:
             f.write(text)
 
     def serial_index(self):
@@ -172,6 +179,14 @@ def cached_config():
 
 
 # ------------------------------------------------------------ independent parser
+def _name(col):
+    """a name column of a text that was read as bytes (latin-1): the name as the configuration has it"""
+    try:
+        return col.encode('latin-1').decode('utf-8')
+    except (UnicodeEncodeError, UnicodeDecodeError):
+        return col
+
+
 def parse_file(text):
     """list of line dicts: kind, text (without newline), terminated, start, end (offsets incl. newline)"""
     out = []
@@ -204,8 +219,8 @@ def parse_file(text):
                 d['value'] = float(cols[2])
                 d['serial'] = int(cols[2].split('.')[0]) if cols[2].endswith('.000000') else None
                 d['crit'] = cols[4]
-                d['bench'] = cols[5]
-                d['exe'] = cols[6]
+                d['bench'] = _name(cols[5])
+                d['exe'] = _name(cols[6])
                 d['run_col'] = int(cols[14])
             elif (len(cols) == 13 and cols[0].isdigit() and cols[1].isdigit() and cols[11].isdigit()
                   and cols[12].startswith('[') and _is_json(cols[12])):
@@ -214,8 +229,8 @@ def parse_file(text):
                 d['crit'] = 'profile'
                 d['json'] = cols[12]
                 d['inv'] = int(cols[0])
-                d['bench'] = cols[2]
-                d['exe'] = cols[3]
+                d['bench'] = _name(cols[2])
+                d['exe'] = _name(cols[3])
                 d['run_col'] = int(cols[11])
                 m = re.search(r'sym(\d+)', cols[12])
                 d['serial'] = int(m.group(1)) if m else None
@@ -290,7 +305,7 @@ class _FlushRecorder(object):
         self._n = 0
 
     def write(self, s):
-        self._n += len(s)
+        self._n += len(s.encode('utf-8', 'surrogateescape'))    # offsets are byte offsets
         return self._f.write(s)
 
     def flush(self):
